@@ -25,7 +25,12 @@ META = {
             "source); an unmap from the front path is kept as a refuted counter-model and a stream of front "
             "connections whose dial a live endpoint refuses exercises it. The registry key is the name itself (the key "
             "expression of every access of the endpoints map is read off the source and must be the name parameter; "
-            "names that differ are independent; a folded key used by some operations only is refuted).",
+            "names that differ are independent; a folded key used by some operations only is refuted). The "
+            "registration bracket: no statement stands between ServeBackName's call of upgrade and the defer that "
+            "calls unmap (read off the source), every way out of such a body on which the client was registered "
+            "runs the unmap, and an early return between the two is kept as a refuted counter-model; a stream with "
+            "a SideToken callback that answers ok or an error over time and endpoints with and without Siding reads "
+            "the registry and makes a front connection after every connection, also one the server refused.",
     "note": "Trusted: Coq kernel + vm_compute; translator gen/sni_rpc.go; harness/cmd/c15 + sniproxy/verif_rpc.go + "
             "verif_point.go (one schedule point after ep.serve()); sync.Mutex, the websocket upgrade and the "
             "background old.Close() are single abstract steps; the reason a serve loop ends is nondeterministic in "
@@ -142,6 +147,81 @@ def impl_oracle(c):
             if o.get("final") != "none":
                 out.append(("ended-still-registered", "the name still resolves after the endpoint ended; " + how))
         return out
+    if c["stream"] == "token":
+        out = [x for x in out if x[0] not in ("callbacks-unpaired", "hang")]
+        for o in c.get("token", []):
+            live = None                                   # (index, siding) of the endpoint that should be registered
+            accepted = 0
+            for j, t in enumerate(o.get("conns", [])):
+                how = "round %d, connection #%d (%s, SideToken answers %s while it connects)" \
+                      % (o["round"], j + 1, "Siding" if t.get("siding") else "not siding", t.get("token"))
+                if not t.get("outcome"):
+                    continue
+                if t["outcome"] == "accepted":
+                    accepted += 1
+                    live = (j, bool(t.get("siding")))
+                    if t.get("after") != "this":
+                        out.append(("newest-not-registered",
+                                    "the name resolves to '%s' instead of the connection just accepted; %s"
+                                    % (t.get("after"), how)))
+                else:
+                    if t.get("prev_ended"):
+                        live = None
+                    if t.get("after") == "other" or (t.get("after") == "prev" and t.get("prev_ended")):
+                        out.append(("ended-endpoint-still-registered",
+                                    "the server refused the connection (%s) and its ServeBack has returned, but the name "
+                                    "still resolves to an endpoint client ('%s') that is none of the live ones: the "
+                                    "refused connection stayed registered; %s" % (t.get("err"), t.get("after"), how)))
+                if not t.get("front"):
+                    continue
+                fr = t["front"]
+                fhow = "the front connection made afterwards (SideToken answers %s) was %s" % (t.get("front_token"), fr)
+                if live is None:
+                    if fr == "blocked":
+                        out.append(("dial-blocked-on-dead-endpoint",
+                                    "no endpoint of the name is live, yet %s for 10 s instead of being closed "
+                                    "(the name resolves to '%s'); %s" % (fhow, t.get("after2"), how)))
+                    elif fr != "closed":
+                        out.append(("front-served-without-live-endpoint", "%s; %s" % (fhow, how)))
+                elif live[1] and t.get("front_token") == "error":
+                    # the live siding endpoint cannot get a token: the dial fails, the endpoint stays
+                    if fr != "closed":
+                        out.append(("front-hang" if fr == "blocked" else "front-served-without-token",
+                                    "%s; %s" % (fhow, how)))
+                    if t.get("after2") != t.get("after") or not t.get("alive"):
+                        out.append(("front-dial-unregistered-live-endpoint",
+                                    "after the failed dial the name resolves to '%s' (before: '%s'), the endpoint %s; %s"
+                                    % (t.get("after2"), t.get("after"),
+                                       "answers" if t.get("alive") else "does not answer", how)))
+                else:
+                    if fr == "blocked":
+                        out.append(("front-hang", "%s; %s" % (fhow, how)))
+                    elif fr != "served" or t.get("served_by") != live[0]:
+                        out.append(("later-front-not-served",
+                                    "%s (by connection #%s) although connection #%d is live and registered; %s"
+                                    % (fhow, t.get("served_by", -1) + 1, live[0] + 1, how)))
+            if o.get("hang") and not any(x[0] in ("dial-blocked-on-dead-endpoint", "front-hang") for x in out):
+                out.append(("hang", "no progress within 10 s: %s (round %d)" % (o["hang"], o["round"])))
+            if o.get("hang"):
+                continue
+            if o.get("final") != "none":
+                out.append(("ended-still-registered",
+                            "after every endpoint of round %d had ended the name still resolves" % o["round"]))
+            if o.get("final_front") != "closed":
+                out.append(("dial-blocked-on-dead-endpoint" if o.get("final_front") == "blocked"
+                            else "front-served-without-live-endpoint",
+                            "after every endpoint of round %d had ended a front connection was %s"
+                            % (o["round"], o.get("final_front"))))
+            per = {}
+            for x in o.get("notes", []):
+                per.setdefault(x["s"], []).append((x["k"], x["n"]))
+            if len(per) != accepted:
+                out.append(("callbacks-unpaired", "%d accepted connections but notifications for %d sessions (round %d)"
+                            % (accepted, len(per), o["round"])))
+            for sv, l in sorted(per.items()):
+                if len(l) != 2 or l[0][0] != "connect" or l[1][0] != "disconnect" or l[0][1] != l[1][1]:
+                    out.append(("callbacks-unpaired", "session %s has notifications %s (round %d)" % (sv, l, o["round"])))
+        return out
     if c["stream"] == "silent":
         out = [x for x in out if x[0] not in ("callbacks-unpaired", "hang")]
         for o in c.get("silent", []):
@@ -253,7 +333,8 @@ def run(ck):
         nsilent = 1 if not ck.thorough else 10       # (2 rounds each; a round costs the kick's 3 s time-out)
         rc, out, err = vlib.sh2([binp, "-seed", str(ck.seed), "-n", str(n), "-free", str(nfree),
                                  "-race", str(nrace), "-silent", str(nsilent),
-                                 "-front", "2" if not ck.thorough else "12", "-slow", "0" if not ck.thorough else "1",
+                                 "-front", "2" if not ck.thorough else "12",
+                                 "-token", "2" if not ck.thorough else "20", "-slow", "0" if not ck.thorough else "1",
                                  "-budget", "150" if not ck.thorough else "900"],
                                 timeout=3000)
         if rc != 0:
@@ -282,6 +363,15 @@ def run(ck):
             key = [c["i"], [(o["how"], o.get("refused"), o.get("after")) for o in c.get("front", [])]]
             ck.coverage["front_refused_dials"] = ck.coverage.get("front_refused_dials", 0) \
                 + sum(o.get("refused", 0) for o in c.get("front", []))
+        if c["stream"] == "token":
+            key = [c["i"], [[(t.get("siding"), t.get("token"), t.get("outcome"), t.get("front_token"), t.get("front"))
+                             for t in o.get("conns", [])] for o in c.get("token", [])]]
+            tk = ck.coverage.setdefault("token_stream_connections", {})
+            for o in c.get("token", []):
+                for t in o.get("conns", []):
+                    kk = "%s/token-%s/%s/front-token-%s/%s" % ("siding" if t.get("siding") else "plain", t.get("token"),
+                                                               t.get("outcome"), t.get("front_token"), t.get("front"))
+                    tk[kk] = tk.get(kk, 0) + 1
         if c["stream"] == "silent":
             key = [c["i"], [(o["silent_peers"], o.get("after"), len(o.get("notes", []))) for o in c.get("silent", [])]]
             ck.coverage["silent_peer_rounds"] = ck.coverage.get("silent_peer_rounds", 0) + len(c.get("silent", []))
@@ -356,7 +446,13 @@ def run(ck):
              "ClientHello) with an error (side mode with an application dialer that cannot reach the proxy for side "
              "connections; thorough also a full accept backlog with the 10 s accept timer): the name must still resolve to "
              "that endpoint, which still answers; one connect and no disconnect; a later front connection reaches its "
-             "Accept. A forced schedule is non-trivial if it has >= 2 "
+             "Accept; plus a token stream: rounds of 2-4 connections under one name, with and without the Siding option, "
+             "while ServerConfig.SideToken answers ok or an error as scripted (round 0: live plain endpoint, then a "
+             "Siding one while the token service fails, then a plain one); after every connection has settled -- accepted "
+             "or refused by the server -- the registry is read and a front connection is made (with the token service "
+             "up or down): an accepted connection is registered, a refused one is not, a front connection is served by "
+             "the live endpoint, closed when none is live or when a live Siding endpoint cannot get a token (which then "
+             "stays registered and answers), never left hanging. A forced schedule is non-trivial if it has >= 2 "
              "connects; also failed upgrades (plain HTTP request), side-websocket probes for an unknown session (upgraded iff "
              "the name resolves) and connections whose OnConnect / OnDisconnect callback panics; distinct = distinct (schedule, lookups after every step)",
         assumptions=["OnConnect/OnDisconnect are the user's callbacks; the session value is whatever OnConnect returns",
